@@ -95,6 +95,26 @@ R_SCOPES["r_falsy"] = {
     "presets": [(8, 1, 2)] * 4,
     "restricted": True,
 }
+R_SCOPES["r_samegraph"] = {
+    # one triple in several graphs: consecutive quads that differ in the graph name only
+    "triples": AL.SCOPES["samegraph"]["triples"],
+    "presets": AL.SCOPES["samegraph"]["presets"],
+    "gnames": AL.SCOPES["samegraph"]["gnames"],
+}
+R_SCOPES["r_bnodes"] = {
+    # blank-node labels with leading '_' / ':' / "_:" (legal strings for both integrations),
+    # next to labels that differ from them only by those characters
+    "triples": [
+        (B("_:b1"), AP, B("b1")),
+        (B("b1"), AP, B("_b")),
+        (B("_b"), AP, B(":y")),
+        (B(":y"), AP, L("x")),
+        (B("__x"), AP, B("x")),
+        (B("x"), AP, B("_:b1")),
+    ],
+    "presets": [(8, 0, 0), (8, 1, 0), (8, 2, 0), (4000, 150, 32)],
+    "gnames": [DEFAULT, B("_:g"), B("g"), B("_g"), I("http://a/g"), B("_:b1")],
+}
 GNAMES = [DEFAULT, I("http://a/x"), I("http://a/x"), B("x"), DEFAULT, I("http://b#x")]
 FRAME_SIZES = (1, 250)
 # (logical type kind, delimited)
@@ -104,7 +124,8 @@ GROUPED_LT = {"triple": 3, "quad": 4, "graph": 4}
 
 def alphabet(scope: str, cls: str) -> list:
     tr = R_SCOPES[scope]["triples"]
-    return tr if cls == "triple" else [(*t, g) for t, g in zip(tr, GNAMES)]
+    return tr if cls == "triple" else [(*t, g) for t, g in zip(tr, R_SCOPES[scope].get("gnames",
+                                                                                        GNAMES))]
 
 
 def assert_fixpoints() -> None:
